@@ -2143,6 +2143,8 @@ class Recipe:
         if not isinstance(max_volume, str):
             raise TypeError("Maximum volume must be a str.")
 
+        if initial_contents is not None and not initial_contents and isinstance(initial_contents, Iterable):
+            initial_contents = []  # (the step's own list, also when the caller's is still empty)
         if initial_contents:
             if not isinstance(initial_contents, Iterable):
                 raise TypeError("Initial contents must be iterable.")
